@@ -1,7 +1,7 @@
 (** Proofs about the Start/Stop micro-step model (System/Lifecycle.v): inductive invariants over all thread
     populations and all event sequences. *)
 From Coq Require Import List NArith Bool Lia Arith.
-From Coq Require Import ZifyN ZifyNat ZifyBool.
+From Coq Require Import ZifyN ZifyNat.
 From Vivid Require Import System.Lifecycle.
 Import ListNotations.
 Local Open Scope N_scope.
@@ -122,12 +122,11 @@ Definition claim_ok (l : list (nat * bool * stat)) (j : nat) (p : pc) : Prop :=
 
 (** pcs of the one Start that got through, before its `go` statement *)
 Definition pre_go (p : pc) : bool := match p with SUnlock RNil | SSpawnRoot | SChain | SGo => true | _ => false end.
-(** pcs of the winner after system.Context was assigned *)
+(** pcs of the winner after system.Context was assigned (Start's failure path is not included: the
+    assignment itself may have failed) *)
 Definition past_root (p : pc) : bool :=
   match p with
-  | SChain | SGo | TLock ByStart _ | TCheck ByStart _ | TUnlock ByStart _ _ | TReadCluster ByStart _ | TLeaveReq ByStart _
-  | TLeaveWait ByStart _ | TReadCtx ByStart _ | TKill ByStart _ | TCancel ByStart _ | TSelect ByStart _ | TSchedStop ByStart
-  | Done KStart RNil | Done KStart (RStartFailed _) => true
+  | SChain | SGo | Done KStart RNil => true
   | _ => false
   end.
 (** the effective stop before it issued Kill(root) *)
@@ -159,6 +158,7 @@ Definition tfacts (s : st) (j : nat) (p : pc) : Prop :=
   | TSchedStop _ => skipped s = true \/ (1 <= kills s /\ guardClosed s = true /\ ctxDone s = true /\ hasCtx s = true)
   | TUnlock ByGuard _ r => r <> RNotStarted
   | TKill _ _ => hasCtx s = true
+  | Spawned k => env_pc k = true \/ k = GWait
   | Done k r =>
       (k = KGuard -> r <> RNotStarted) /\
       (stop_nil k r = true -> schedStopped s = true /\
@@ -231,4 +231,676 @@ Proof.
   - intros G. destruct (Hg G). split; [auto|lia].
   - intros G. auto.
   - destruct p; auto; try (intuition (auto; try lia); fail).
+Qed.
+
+(** ------------------------------------------------------------------ preservation *)
+
+Lemma lt_app {A} (l : list A) e i x : nth_error l i = Some x -> (i < length (l ++ e))%nat.
+Proof. intros H. apply nth_error_lt in H. rewrite app_length. lia. Qed.
+
+(** split [Hq : nth_error (thr s') j = Some q] into: the moved thread / an untouched thread / the created thread *)
+Ltac thr_cases Hq :=
+  cbn in Hq;
+  apply nth_upd_cases in Hq; [| solve [eapply nth_error_lt; eassumption | eapply lt_app; eassumption]];
+  destruct Hq as [[? ?]|[? Hq]]; [subst| try (apply nth_app_cases in Hq; destruct Hq as [Hq|[? ?]]; [|subst])].
+
+Lemma upd_app {A} (l e : list A) i x : (i < length l)%nat -> upd (l ++ e) i x = upd l i x ++ e.
+Proof. revert i. induction l; intros [|i] H; cbn in *; try lia; auto. f_equal. apply IHl. lia. Qed.
+
+Lemma lock_frame s i p p' lk' extra t' :
+  (forall j, lock s = Some j -> exists p, nth_error (thr s) j = Some p /\ holder_pc p = true) ->
+  (forall j p, nth_error (thr s) j = Some p -> holder_pc p = true -> lock s = Some j) ->
+  nth_error (thr s) i = Some p ->
+  t' = upd (thr s) i p' ++ extra ->
+  (forall q, In q extra -> holder_pc q = false) ->
+  ( (holder_pc p = false /\ holder_pc p' = true /\ lock s = None /\ lk' = Some i)
+  \/ (holder_pc p = true /\ holder_pc p' = false /\ lk' = None)
+  \/ (holder_pc p = holder_pc p' /\ lk' = lock s)) ->
+  (forall j, lk' = Some j -> exists q, nth_error t' j = Some q /\ holder_pc q = true) /\
+  (forall j q, nth_error t' j = Some q -> holder_pc q = true -> lk' = Some j).
+Proof.
+  intros L1 L2 Hp -> Hex Pat. pose proof (nth_error_lt _ _ _ Hp) as Hlt.
+  assert (Hi : nth_error (upd (thr s) i p' ++ extra) i = Some p').
+  { rewrite nth_error_app1 by (rewrite length_upd; auto). apply nth_error_upd_eq; auto. }
+  assert (Hj : forall j q, nth_error (upd (thr s) i p' ++ extra) j = Some q ->
+                 (j = i /\ q = p') \/ (j <> i /\ nth_error (thr s) j = Some q) \/ holder_pc q = false).
+  { intros j q Hq. destruct (Nat.lt_ge_cases j (length (thr s))).
+    - rewrite nth_error_app1 in Hq by (rewrite length_upd; auto).
+      apply nth_upd_cases in Hq; auto. tauto.
+    - rewrite nth_error_app2 in Hq by (rewrite length_upd; auto). right. right. apply Hex. eapply nth_error_In; eauto. }
+  assert (Hk : forall j q, j <> i -> nth_error (thr s) j = Some q -> nth_error (upd (thr s) i p' ++ extra) j = Some q).
+  { intros j q Hn Hq. rewrite nth_error_app1 by (rewrite length_upd; eapply nth_error_lt; eauto).
+    rewrite nth_error_upd_neq; auto. }
+  split.
+  - intros j Hl. destruct Pat as [(A&B&C&D)|[(A&B&C)|(A&B)]].
+    + assert (j = i) by congruence. subst. eauto.
+    + congruence.
+    + rewrite B in Hl. destruct (L1 j Hl) as (q & Hq & Hh). destruct (Nat.eq_dec j i) as [->|Hn].
+      * exists p'. split; auto. congruence.
+      * exists q. split; auto.
+  - intros j q Hq Hh. destruct (Hj j q Hq) as [[-> ->]|[[Hn Hq']|Hf]]; [| |congruence].
+    + destruct Pat as [(A&B&C&D)|[(A&B&C)|(A&B)]]; try congruence.
+      rewrite B. apply (L2 i p); auto. congruence.
+    + pose proof (L2 j q Hq' Hh) as Hl. destruct Pat as [(A&B&C&D)|[(A&B&C)|(A&B)]]; try congruence.
+      pose proof (L2 i p Hp A). congruence.
+Qed.
+
+(** in the [Spawned k] case, k is one of the four programs a thread can start with *)
+Ltac spawned_cases I :=
+  try match goal with
+  | Hp : nth_error (thr ?s) ?i = Some (Spawned ?k) |- _ =>
+      let Hk := fresh "Hk" in
+      pose proof (i_facts _ _ I _ _ Hp) as (_ & _ & _ & Hk); cbn in Hk; destruct Hk as [Hk| ->];
+      [destruct k; try discriminate Hk; try match goal with w : who |- _ => destruct w; try discriminate Hk end|]
+  end.
+
+Ltac lock_pat :=
+  first [ left; repeat split; (reflexivity || assumption)
+        | right; left; repeat split; (reflexivity || assumption)
+        | right; right; repeat split; (reflexivity || assumption) ].
+
+Lemma pres_lock n c e s s' : inv n s -> step c e s = Some s' ->
+  (forall j, lock s' = Some j -> exists p, nth_error (thr s') j = Some p /\ holder_pc p = true) /\
+  (forall j p, nth_error (thr s') j = Some p -> holder_pc p = true -> lock s' = Some j).
+Proof.
+  intros I H.
+  inv_step H; pose proof (i_lock1 _ _ I) as L1; pose proof (i_lock2 _ _ I) as L2; try (split; assumption); spawned_cases I.
+  all: try (eapply lock_frame with (extra := []); [exact L1|exact L2|exact Hp|cbn; rewrite app_nil_r; reflexivity|intros ? []|cbn; lock_pat]).
+  - eapply lock_frame with (extra := [Spawned GWait]); [exact L1|exact L2|exact Hp| | |].
+    + cbn. apply upd_app. eapply nth_error_lt; eauto.
+    + intros q [<-|[]]. reflexivity.
+    + cbn. lock_pat.
+Qed.
+
+Lemma pres_lin n c e s s' : inv n s -> step c e s = Some s' ->
+  lin_wf (lin s') /\ status s' = status_after (lin s').
+Proof.
+  intros I H. pose proof (i_wf _ _ I) as W. pose proof (i_status _ _ I) as S.
+  inv_step H; cbn; try (split; assumption).
+  all: rewrite <- S; rewrite ?E; cbn; repeat split; auto.
+Qed.
+
+(** global facts tying kills / spawned to the status *)
+Record inv2 (s : st) : Prop := {
+  j_kills : status s <> Stopped -> kills s = 0;
+  j_spawned : status s = Ready -> spawned s = 0;
+  j_hasCtx : status s = Ready -> hasCtx s = false;
+}.
+
+Lemma claim_in l j p b st cl : claim_ok l j p -> claims p = Some cl -> In (b, st) cl -> In (j, b, st) l.
+Proof. intros (cl' & Hc & Hin) Hc' Hi. rewrite Hc in Hc'. injection Hc' as ->. auto. Qed.
+
+Lemma pres_inv2 n c e s s' : inv n s -> inv2 s -> step c e s = Some s' -> inv2 s'.
+Proof.
+  intros I [K S X] H. pose proof (i_wf _ _ I) as W. pose proof (i_status _ _ I) as St.
+  inv_step H; try (constructor; cbn; assumption).
+  all: try (constructor; cbn; rewrite ?E in *; intros; first [congruence | apply K; congruence | apply S; congruence | apply X; congruence]).
+  all: pose proof (i_facts _ _ I _ _ Hp) as (Hc & _).
+  - (* SSpawnRoot *) constructor; cbn; auto. intros Hr. exfalso.
+    assert (In (i, true, Ready) (lin s)) by (eapply (claim_in _ _ _ _ _ _ Hc); [reflexivity|cbn; auto]).
+    rewrite St in Hr. eapply after_start_entry; eauto.
+  - (* SGo *) constructor; cbn; auto. intros Hr. exfalso.
+    assert (In (i, true, Ready) (lin s)) by (eapply (claim_in _ _ _ _ _ _ Hc); [reflexivity|cbn; auto]).
+    rewrite St in Hr. eapply after_start_entry; eauto.
+  - (* TKill *) constructor; cbn; auto. intros Hr. exfalso. apply Hr.
+    assert (In (i, false, Started) (lin s)) by (eapply (claim_in _ _ _ _ _ _ Hc); [reflexivity|cbn; auto]).
+    rewrite St. eapply after_eff_entry; eauto.
+Qed.
+
+Lemma pre_go_claim q : pre_go q = true -> claims q = Some [(true, Ready)].
+Proof. destruct q; try discriminate; try reflexivity. destruct r; try discriminate; reflexivity. Qed.
+
+Lemma pre_kill_claim q : pre_kill q = true -> exists cl, claims q = Some ((false, Started) :: cl).
+Proof. destruct q; try discriminate; try (eexists; reflexivity). destruct r; try discriminate. eexists; reflexivity. Qed.
+
+Lemma two_winners n s i j p q : inv n s -> nth_error (thr s) i = Some p -> nth_error (thr s) j = Some q ->
+  pre_go p = true -> pre_go q = true -> i = j.
+Proof.
+  intros I Hp Hq Gp Gq. pose proof (i_facts _ _ I _ _ Hp) as (Cp & _). pose proof (i_facts _ _ I _ _ Hq) as (Cq & _).
+  eapply winner_unique; [apply (i_wf _ _ I)| |].
+  - eapply (claim_in _ _ _ _ _ _ Cp); [apply pre_go_claim; auto|cbn; auto].
+  - eapply (claim_in _ _ _ _ _ _ Cq); [apply pre_go_claim; auto|cbn; auto].
+Qed.
+
+Lemma two_effs n s i j p q : inv n s -> nth_error (thr s) i = Some p -> nth_error (thr s) j = Some q ->
+  pre_kill p = true -> pre_kill q = true -> i = j.
+Proof.
+  intros I Hp Hq Gp Gq. pose proof (i_facts _ _ I _ _ Hp) as (Cp & _). pose proof (i_facts _ _ I _ _ Hq) as (Cq & _).
+  destruct (pre_kill_claim _ Gp) as (c1 & H1). destruct (pre_kill_claim _ Gq) as (c2 & H2).
+  eapply eff_unique; [apply (i_wf _ _ I)| |].
+  - eapply (claim_in _ _ _ _ _ _ Cp); [eauto|cbn; auto].
+  - eapply (claim_in _ _ _ _ _ _ Cq); [eauto|cbn; auto].
+Qed.
+
+Lemma pres_prego n c e s s' : inv n s -> inv2 s -> step c e s = Some s' ->
+  (forall j q, nth_error (thr s') j = Some q -> pre_go q = true -> spawned s' = 0) /\ spawned s' <= 1.
+Proof.
+  intros I I2 H. pose proof (i_prego _ _ I) as G. pose proof (i_spawned _ _ I) as S.
+  inv_step H; try (split; assumption); spawned_cases I.
+  all: split; [intros j q Hq Gq; thr_cases Hq; cbn in *; try discriminate; eauto|cbn; try assumption].
+  - (* SCheck, Ready *) apply (j_spawned _ I2). auto.
+  - (* SGo, other thread *) exfalso. assert (i = j) by (eapply two_winners; eauto). congruence.
+  - rewrite (G _ _ Hp) by reflexivity. lia.
+Qed.
+
+Lemma pres_prekill n c e s s' : inv n s -> inv2 s -> step c e s = Some s' ->
+  (forall j q, nth_error (thr s') j = Some q -> pre_kill q = true -> kills s' = 0) /\ kills s' <= 1.
+Proof.
+  intros I I2 H. pose proof (i_prekill _ _ I) as G. pose proof (i_kills _ _ I) as S.
+  inv_step H; try (split; assumption); spawned_cases I.
+  all: split; [intros j q Hq Gq; thr_cases Hq; cbn in *; try discriminate; eauto|cbn; try assumption].
+  - (* TCheck, Started *) apply (j_kills _ I2). congruence.
+  - (* TKill, other thread *) exfalso. assert (i = j) by (eapply two_effs; eauto). congruence.
+  - rewrite (G _ _ Hp) by reflexivity. lia.
+Qed.
+
+Lemma pres_len n c e s s' : inv n s -> step c e s = Some s' ->
+  length (thr s') = (n + N.to_nat (spawned s'))%nat.
+Proof.
+  intros I H. pose proof (i_len _ _ I) as L.
+  inv_step H; cbn; rewrite ?length_upd; try assumption.
+  rewrite app_length. cbn. lia.
+Qed.
+
+Lemma pres_created n c e s s' : inv n s -> step c e s = Some s' ->
+  forall j q, nth_error (thr s') j = Some q -> (n <= j)%nat -> guard_pc q = true.
+Proof.
+  intros I H. pose proof (i_created _ _ I) as G. pose proof (i_len _ _ I) as L.
+  inv_step H; try assumption; spawned_cases I.
+  all: intros j q Hq Hn; thr_cases Hq; eauto.
+  all: try (pose proof (G _ _ Hp Hn) as Hg; cbn in Hg; try discriminate Hg; cbn; try assumption; try reflexivity).
+  all: try (destruct w; cbn in *; congruence).
+Qed.
+
+Ltac claim_tac Hc :=
+  unfold claim_ok; eexists; split; [cbn; reflexivity|];
+  let b := fresh "b" in let st := fresh "st" in let Hin := fresh "Hin" in
+  intros b st Hin; cbn in Hin;
+  repeat match type of Hin with
+         | _ \/ _ => destruct Hin as [Hin|Hin]
+         | False => destruct Hin
+         end;
+  try (injection Hin as <- <-);
+  cbn; repeat match goal with E : status ?s = _ |- context[status ?s] => rewrite E end;
+  first [ left; reflexivity
+        | right; eapply (claim_in _ _ _ _ _ _ Hc); [cbn; reflexivity|cbn; tauto]
+        | eapply (claim_in _ _ _ _ _ _ Hc); [cbn; reflexivity|cbn; tauto] ].
+
+Lemma pres_facts n c e s s' : inv n s -> inv2 s -> step c e s = Some s' ->
+  forall j q, nth_error (thr s') j = Some q -> tfacts s' j q.
+Proof.
+  intros I I2 H. pose proof (step_mono _ _ _ _ H) as M. pose proof (pres_prego _ _ _ _ _ I I2 H) as [_ Sp].
+  pose proof (i_facts _ _ I) as F.
+  assert (Env : thr s' = thr s -> forall j q, nth_error (thr s') j = Some q -> tfacts s' j q).
+  { intros Ht j q Hq. rewrite Ht in Hq. eapply tfacts_mono; eauto. }
+  inv_step H; try (apply Env; reflexivity); clear Env; spawned_cases I.
+  all: intros j q Hq; thr_cases Hq; [| eapply tfacts_mono; eauto |..].
+  all: try (pose proof (i_facts _ _ I _ _ Hp) as (Hc & Hg & Hr & Hx); cbn in Hg, Hr, Hx).
+  all: try match goal with w : who |- _ => destruct w end.
+  all: try (destruct Hc as (? & Hc & _); cbn in Hc; discriminate).
+  all: try (split; [claim_tac Hc|split; [cbn; try discriminate|split; [cbn; try discriminate|cbn]]]).
+  all: try exact I.
+  all: try (intros; first [exact I | reflexivity | tauto | (split; [congruence|intros; discriminate]) | (apply Hr; reflexivity) | (apply Hg; reflexivity) ]).
+  all: try (split; [lia|assumption]).
+  all: try (split; [intros; discriminate|intros _; split; [reflexivity|exact Hx]]).
+  all: try discriminate.
+  all: try (intros _; split; [discriminate|apply Hg; reflexivity]).
+  - intros _. split.
+    + rewrite (i_status _ _ I). eapply after_start_entry; [apply (i_wf _ _ I)|].
+      eapply (claim_in _ _ _ _ _ _ Hc); [reflexivity|cbn; auto].
+    + rewrite (i_prego _ _ I _ _ Hp) by reflexivity. reflexivity.
+Qed.
+
+Lemma inv_step_pres n c e s s' : inv n s /\ inv2 s -> step c e s = Some s' -> inv n s' /\ inv2 s'.
+Proof.
+  intros [I I2] H. split; [|eapply pres_inv2; eauto].
+  destruct (pres_lock _ _ _ _ _ I H). destruct (pres_lin _ _ _ _ _ I H).
+  destruct (pres_prego _ _ _ _ _ I I2 H). destruct (pres_prekill _ _ _ _ _ I I2 H).
+  constructor; auto.
+  - eapply pres_facts; eauto.
+  - eapply pres_len; eauto.
+  - eapply pres_created; eauto.
+Qed.
+
+Lemma nth_map_spawned ths j q : nth_error (map Spawned ths) j = Some q -> exists k, q = Spawned k /\ nth_error ths j = Some k.
+Proof. rewrite nth_error_map. destruct (nth_error ths j); cbn; intros H; [injection H as <-; eauto|discriminate]. Qed.
+
+Lemma inv_init ths : forallb env_pc ths = true -> inv (length ths) (init ths) /\ inv2 (init ths).
+Proof.
+  intros He. split; [constructor|constructor]; cbn; auto; try lia; try discriminate.
+  - intros j p Hq Hh. destruct (nth_map_spawned _ _ _ Hq) as (k & -> & Hk). discriminate.
+  - intros j p Hq. destruct (nth_map_spawned _ _ _ Hq) as (k & -> & Hk).
+    assert (Ek : env_pc k = true). { rewrite forallb_forall in He. apply He. eapply nth_error_In; eauto. }
+    split; [exists []; split; [reflexivity|intros ? ? []]|].
+    split; [|split; [intros; discriminate|left; auto]].
+    destruct k; try discriminate.
+  - rewrite map_length. lia.
+  - intros j p Hq Hn. apply nth_error_lt in Hq. rewrite map_length in Hq. lia.
+Qed.
+
+Lemma run_inv n c evs s : inv n s /\ inv2 s -> inv n (run c evs s) /\ inv2 (run c evs s).
+Proof.
+  revert s. induction evs as [|e evs IH]; intros s I; cbn; auto.
+  apply IH. unfold step_or_stay. destruct (step c e s) eqn:E; auto. eapply inv_step_pres; eauto.
+Qed.
+
+Lemma reachable_inv c s : reachable c s -> exists n, inv n s /\ inv2 s.
+Proof. intros (ths & evs & He & <-). exists (length ths). apply run_inv. apply inv_init. auto. Qed.
+
+(** ------------------------------------------------------------------ theorems *)
+
+(** one-way status, per step and along runs (no reachability needed) *)
+Lemma one_way_step c e s s' : step c e s = Some s' ->
+  status s' = status s \/ (status s = Ready /\ status s' = Started) \/ (status s = Started /\ status s' = Stopped).
+Proof. intros H. inv_step H; cbn; auto. Qed.
+
+Definition st_rank (x : stat) : nat := match x with Ready => 0 | Started => 1 | Stopped => 2 end.
+
+Lemma one_way_run c evs s : (st_rank (status s) <= st_rank (status (run c evs s)))%nat.
+Proof.
+  revert s. induction evs as [|e evs IH]; intros s; cbn; [lia|].
+  unfold step_or_stay. destruct (step c e s) eqn:E; [|apply IH].
+  etransitivity; [|apply IH]. destruct (one_way_step _ _ _ _ E) as [->|[[-> ->]|[-> ->]]]; cbn; lia.
+Qed.
+
+(** a Stop that finds the system not started changes nothing but the lock and the log *)
+Lemma stop_before_start c i alt s s' w d :
+  nth_error (thr s) i = Some (TCheck w d) -> status s = Ready -> step c (EStep i alt) s = Some s' ->
+  status s' = Ready /\ nth_error (thr s') i = Some (TUnlock w d RNotStarted) /\ kills s' = kills s /\ ctxDone s' = ctxDone s.
+Proof.
+  intros Hp Hs H. cbn in H. rewrite Hp in H. cbn in H. rewrite Hs in H. injection H as <-. cbn.
+  repeat split; auto. apply nth_error_upd_eq. eapply nth_error_lt; eauto.
+Qed.
+
+(** mutual exclusion *)
+Lemma mutex c s i j p q : reachable c s ->
+  nth_error (thr s) i = Some p -> nth_error (thr s) j = Some q -> holder_pc p = true -> holder_pc q = true -> i = j.
+Proof.
+  intros R Hp Hq A B. destruct (reachable_inv _ _ R) as (n & I & _).
+  pose proof (i_lock2 _ _ I _ _ Hp A). pose proof (i_lock2 _ _ I _ _ Hq B). congruence.
+Qed.
+
+(** the holder of the lock is never blocked and releases it within two of its own steps *)
+Lemma lock_released c s j : reachable c s -> lock s = Some j ->
+  exists s1, step c (EStep j 0) s = Some s1 /\
+    (lock s1 = None \/ exists s2, step c (EStep j 0) s1 = Some s2 /\ lock s2 = None).
+Proof.
+  intros R Hl. destruct (reachable_inv _ _ R) as (n & I & _).
+  destruct (i_lock1 _ _ I _ Hl) as (p & Hp & Hh). pose proof (nth_error_lt _ _ _ Hp) as Hlt.
+  destruct p; try discriminate; cbn [step]; rewrite Hp; cbn [step_thread].
+  - (* SCheck *) destruct (status s); eexists; (split; [reflexivity|]); right; cbn [step thr goto set_thr set_check];
+      rewrite nth_error_upd_eq by auto; cbn [step_thread]; eexists; (split; [reflexivity|reflexivity]).
+  - (* SUnlock *) destruct r; eexists; (split; [reflexivity|]); left; reflexivity.
+  - (* TCheck *) destruct (status s); eexists; (split; [reflexivity|]); right; cbn [step thr goto set_thr set_check];
+      rewrite nth_error_upd_eq by auto; cbn [step_thread]; eexists; (split; [reflexivity|reflexivity]).
+  - (* TUnlock *) destruct r; eexists; (split; [reflexivity|]); left; reflexivity.
+Qed.
+
+(** progress: an unfinished thread can step, or waits for the lock whose holder can step, or waits for the
+    environment (context cancel for the guard goroutine; leave-completed; tree-done-or-timeout) *)
+Lemma progress c s i p : reachable c s -> nth_error (thr s) i = Some p -> is_done p = false ->
+  (exists alt s', step c (EStep i alt) s = Some s')
+  \/ (lock_pc p = true /\ exists j, j <> i /\ lock s = Some j /\ exists s', step c (EStep j 0) s = Some s')
+  \/ env_wait s p.
+Proof.
+  intros R Hp Hd. destruct (reachable_inv _ _ R) as (n & I & _).
+  pose proof (i_facts _ _ I _ _ Hp) as (_ & _ & _ & Hx).
+  assert (Lk : lock_pc p = true -> (exists alt s', step c (EStep i alt) s = Some s')
+           \/ (lock_pc p = true /\ exists j, j <> i /\ lock s = Some j /\ exists s', step c (EStep j 0) s = Some s')
+           \/ env_wait s p).
+  { intros Hl. destruct (lock s) as [j|] eqn:El.
+    - right. left. split; auto. exists j. split; [|split; auto].
+      + intros ->. destruct (i_lock1 _ _ I _ El) as (q & Hq & Hh). rewrite Hp in Hq. injection Hq as <-.
+        destruct p; discriminate.
+      + destruct (lock_released _ _ _ R El) as (s1 & H1 & _). eauto.
+    - left. exists 0. cbn [step]. rewrite Hp. destruct p; try discriminate; cbn [step_thread]; rewrite El; eauto. }
+  destruct p; try discriminate; try (apply Lk; reflexivity);
+    try (left; exists 0; cbn [step]; rewrite Hp; cbn [step_thread];
+         repeat match goal with |- exists _, match ?x with _ => _ end = _ => destruct x end; eauto; fail).
+  - (* TLeaveWait *) cbn in Hx. destruct (leaveDone s) eqn:E.
+    + left. exists 0. cbn [step]. rewrite Hp. cbn [step_thread]. rewrite E. eauto.
+    + right. right. cbn. auto.
+  - (* TSelect *) cbn in Hx. destruct Hx as (Hk & _). destruct (guardClosed s) eqn:E.
+    + left. exists 0. cbn [step]. rewrite Hp. cbn [step_thread]. rewrite E. eauto.
+    + destruct (deadline <=? now s) eqn:E2.
+      * left. exists 1. cbn [step]. rewrite Hp. cbn [step_thread]. rewrite E2. eauto.
+      * right. right. cbn. apply N.leb_gt in E2. repeat split; auto; lia.
+  - (* GWait *) destruct (ctxDone s) eqn:E.
+    + left. exists 0. cbn [step]. rewrite Hp. cbn [step_thread]. rewrite E. eauto.
+    + right. right. cbn. auto.
+Qed.
+
+(** ---- bounded own steps *)
+
+Lemma own_step_rank c i alt s s' p : step c (EStep i alt) s = Some s' -> nth_error (thr s) i = Some p ->
+  exists p', nth_error (thr s') i = Some p' /\ (rank p' < rank p)%nat /\
+             (forall j, j <> i -> (j < length (thr s))%nat -> nth_error (thr s') j = nth_error (thr s) j).
+Proof.
+  intros H Hp. pose proof (nth_error_lt _ _ _ Hp) as Hlt. cbn [step] in H. rewrite Hp in H.
+  destruct p; cbn [step_thread] in H;
+    repeat match type of H with
+           | match ?x with _ => _ end = Some _ => let E := fresh "E" in destruct x eqn:E; try discriminate
+           | (if ?x then _ else _) = Some _ => let E := fresh "E" in destruct x eqn:E; try discriminate
+           end; try discriminate; injection H as <-; cbn [thr goto set_thr set_lock set_check set_hasCtx set_clusterCtx set_ctxDone
+             set_kill set_guardClosed set_leaveReq set_leaveDone set_schedStopped set_now set_skipped set_spawned].
+  all: try (eexists; split; [apply nth_error_upd_eq; auto|split; [cbn; try destruct w; cbn; lia|intros; apply nth_error_upd_neq; auto]]).
+  (* SGo *)
+  rewrite upd_app by auto. eexists. split; [|split].
+  - rewrite nth_error_app1 by (rewrite length_upd; auto). apply nth_error_upd_eq; auto.
+  - cbn. lia.
+  - intros j Hn Hj. rewrite nth_error_app1 by (rewrite length_upd; auto). apply nth_error_upd_neq; auto.
+Qed.
+
+Lemma env_step_thr c e s s' : step c e s = Some s' -> (forall i alt, e <> EStep i alt) -> thr s' = thr s.
+Proof. intros H Hn. inv_step H; try reflexivity; exfalso; eapply Hn; reflexivity. Qed.
+
+Lemma sum_upd (l : list pc) i p p' : nth_error l i = Some p ->
+  (fold_right Nat.add 0 (map rank (upd l i p')) + rank p = fold_right Nat.add 0 (map rank l) + rank p')%nat.
+Proof. revert i. induction l as [|a l IH]; intros [|i] H; cbn in *; try discriminate. - injection H as ->. lia. - specialize (IH _ H). lia. Qed.
+
+Lemma thread_step_total c i alt s s' : step c (EStep i alt) s = Some s' -> (total_rank s' < total_rank s)%nat.
+Proof.
+  intros H. unfold total_rank. cbn [step] in H. destruct (nth_error (thr s) i) as [p|] eqn:Hp; [|discriminate].
+  pose proof (nth_error_lt _ _ _ Hp) as Hlt.
+  destruct p; cbn [step_thread] in H;
+    repeat match type of H with
+           | match ?x with _ => _ end = Some _ => let E := fresh "E" in destruct x eqn:E; try discriminate
+           | (if ?x then _ else _) = Some _ => let E := fresh "E" in destruct x eqn:E; try discriminate
+           end; try discriminate; injection H as <-; cbn [thr goto set_thr set_lock set_check set_hasCtx set_clusterCtx set_ctxDone
+             set_kill set_guardClosed set_leaveReq set_leaveDone set_schedStopped set_now set_skipped set_spawned].
+  all: try (match goal with |- context[upd ?l ?i' ?q] => pose proof (sum_upd l i' _ q Hp) as Hs end; cbn in Hs |- *; try destruct w; cbn in Hs |- *; lia).
+  rewrite upd_app by auto. rewrite map_app, fold_right_app. cbn.
+  pose proof (sum_upd (thr s) i _ (Done KStart RNil) Hp) as Hs. cbn in Hs.
+  assert (forall l a, fold_right Nat.add a l = (fold_right Nat.add 0 l + a)%nat) as Hf.
+  { induction l; intros; cbn; [lia|]. rewrite IHl. lia. }
+  rewrite Hf. lia.
+Qed.
+
+Lemma steps_bounded c evs s : (thread_steps c evs s <= total_rank s)%nat.
+Proof.
+  revert s. induction evs as [|e evs IH]; intros s; cbn; [lia|].
+  destruct (step c e s) as [s'|] eqn:E; [|apply IH].
+  destruct e.
+  - pose proof (thread_step_total _ _ _ _ _ E). specialize (IH s'). lia.
+  - assert (thr s' = thr s) by (eapply env_step_thr; eauto; intros; discriminate). specialize (IH s'). unfold total_rank in *. rewrite H in IH. lia.
+  - assert (thr s' = thr s) by (eapply env_step_thr; eauto; intros; discriminate). specialize (IH s'). unfold total_rank in *. rewrite H in IH. lia.
+  - assert (thr s' = thr s) by (eapply env_step_thr; eauto; intros; discriminate). specialize (IH s'). unfold total_rank in *. rewrite H in IH. lia.
+Qed.
+
+Lemma total_rank_init ths : forallb env_pc ths = true -> (total_rank (init ths) <= 20 * length ths)%nat.
+Proof.
+  unfold total_rank. cbn. induction ths as [|p l IH]; cbn; [lia|]. intros H. apply andb_prop in H as [Hp Hl].
+  specialize (IH Hl). destruct p; try discriminate; try (destruct w; try discriminate); cbn; lia.
+Qed.
+
+(** ---- quiescent states *)
+
+Lemma set_now_same s : set_now s (now s + 0) = s.
+Proof. destruct s. unfold set_now. cbn. rewrite N.add_0_r. reflexivity. Qed.
+
+Lemma step_now_indep c i alt s t p : nth_error (thr s) i = Some p ->
+  (forall w dl, p <> TSelect w dl) ->
+  (exists s', step c (EStep i alt) s = Some s') -> exists s', step c (EStep i alt) (set_now s t) = Some s'.
+Proof.
+  intros Hp Hn (s' & H). cbn [step] in *. cbn [thr set_now]. rewrite Hp in *.
+  destruct p; cbn [step_thread] in *; cbn [lock status clusterCtx leaveDone hasCtx guardClosed ctxDone set_now];
+    repeat match type of H with
+           | match ?x with _ => _ end = Some _ => destruct x; try discriminate
+           | (if ?x then _ else _) = Some _ => destruct x; try discriminate
+           end; eauto.
+  exfalso. eapply Hn. reflexivity.
+Qed.
+
+Lemma quiescent_final c s : reachable c s -> quiescent c s ->
+  forall i p, nth_error (thr s) i = Some p ->
+    is_done p = true \/ (p = GWait /\ ctxDone s = false) \/ (exists w d, p = TLeaveWait w d /\ leaveDone s = false /\ leaveReq s = true).
+Proof.
+  intros R Q i p Hp. destruct (is_done p) eqn:Hd; auto. right.
+  destruct (progress _ _ _ _ R Hp Hd) as [(alt & s' & H)|[(Hl & j & Hn & Hlk & s' & H)|He]].
+  - exfalso. specialize (Q i alt 0). rewrite set_now_same in Q. congruence.
+  - exfalso. specialize (Q j 0 0). rewrite set_now_same in Q. congruence.
+  - destruct p; cbn in He; try tauto.
+    + right. exists w, d. tauto.
+    + exfalso. destruct He as (Hg & Hlt & Hk). specialize (Q i 1 (deadline - now s)).
+      cbn [step thr set_now] in Q. rewrite Hp in Q. cbn [step_thread now set_now] in Q.
+      replace (deadline <=? now s + (deadline - now s)) with true in Q by (symmetry; apply N.leb_le; lia). discriminate.
+Qed.
+
+(** ---- return values as a function of the linearisation order *)
+
+Lemma lin_ok c s : reachable c s -> lin_wf (lin s) /\ status s = status_after (lin s).
+Proof. intros R. destruct (reachable_inv _ _ R) as (n & I & _). split; [apply (i_wf _ _ I)|apply (i_status _ _ I)]. Qed.
+
+Lemma returns c s i k r : reachable c s -> nth_error (thr s) i = Some (Done k r) ->
+  match k with
+  | KStart => exists seen, In (i, true, seen) (lin s) /\ start_res_ok seen r /\
+                (forall inner, r = RStartFailed inner -> exists seen2, In (i, false, seen2) (lin s) /\ stop_res_ok seen2 inner)
+  | KStop | KGuard => exists seen, In (i, false, seen) (lin s) /\ stop_res_ok seen r
+  | KCancel => True
+  end.
+Proof.
+  intros R Hp. destruct (reachable_inv _ _ R) as (n & I & _).
+  pose proof (i_facts _ _ I _ _ Hp) as ((cl & Hc & Hin) & _).
+  destruct k; auto.
+  - destruct r; cbn in Hc; try discriminate; try (injection Hc as <-).
+    + exists Ready. split; [apply Hin; cbn; auto|]. split; [cbn; auto|intros; discriminate].
+    + exists Started. split; [apply Hin; cbn; auto|]. split; [cbn; auto|intros; discriminate].
+    + exists Stopped. split; [apply Hin; cbn; auto|]. split; [cbn; auto|intros; discriminate].
+    + exists Ready. destruct (seen_stop r) as [st|] eqn:Es; [|discriminate]. cbn in Hc. injection Hc as <-.
+      split; [apply Hin; cbn; auto|]. split; [cbn; eauto|].
+      intros inner [= <-]. exists st. split; [apply Hin; cbn; auto|].
+      destruct r; cbn in Es; try discriminate; injection Es as <-; cbn; auto.
+  - destruct r; cbn in Hc; try discriminate; injection Hc as <-; eexists; (split; [apply Hin; cbn; left; reflexivity|cbn; auto]).
+  - destruct r; cbn in Hc; try discriminate; injection Hc as <-; eexists; (split; [apply Hin; cbn; left; reflexivity|cbn; auto]).
+Qed.
+
+Lemma first_start_unique c s i j : reachable c s -> In (i, true, Ready) (lin s) -> In (j, true, Ready) (lin s) -> i = j.
+Proof. intros R. destruct (lin_ok _ _ R). eapply winner_unique; eauto. Qed.
+
+Lemma effective_stop_unique c s i j : reachable c s -> In (i, false, Started) (lin s) -> In (j, false, Started) (lin s) -> i = j.
+Proof. intros R. destruct (lin_ok _ _ R). eapply eff_unique; eauto. Qed.
+
+Lemma select_branches c s i w dl : nth_error (thr s) i = Some (TSelect w dl) ->
+  ((exists s', step c (EStep i 0) s = Some s') <-> guardClosed s = true) /\
+  ((exists s', step c (EStep i 1) s = Some s') <-> dl <= now s).
+Proof.
+  intros Hp. cbn [step]. rewrite Hp. cbn [step_thread]. split; split.
+  - intros (s' & H). destruct (guardClosed s); [auto|discriminate].
+  - intros ->. eauto.
+  - intros (s' & H). destruct (dl <=? now s) eqn:E; [apply N.leb_le; auto|discriminate].
+  - intros H. apply N.leb_le in H. rewrite H. eauto.
+Qed.
+
+(** ---- effects of a stop() that returned nil, whoever ran it *)
+
+Lemma kills_le_1 c s : reachable c s -> kills s <= 1.
+Proof. intros R. destruct (reachable_inv _ _ R) as (n & I & _). apply (i_kills _ _ I). Qed.
+
+Lemma stop_effect c s i k r : reachable c s -> nth_error (thr s) i = Some (Done k r) -> stop_nil k r = true ->
+  status s = Stopped /\ schedStopped s = true /\ effect s.
+Proof.
+  intros R Hp Hn. destruct (reachable_inv _ _ R) as (n & I & _). pose proof (i_kills _ _ I).
+  pose proof (i_facts _ _ I _ _ Hp) as (Hc & _ & _ & Hg & Hx). destruct (Hx Hn) as (Hs & He).
+  split; [|split; auto].
+  - rewrite (i_status _ _ I). destruct Hc as (cl & Hc & Hin).
+    destruct k, r; try discriminate; try (destruct r; discriminate).
+    + destruct r; try discriminate. cbn in Hc. injection Hc as <-. eapply after_eff_entry; [apply (i_wf _ _ I)|apply Hin; cbn; auto].
+    + cbn in Hc. injection Hc as <-. eapply after_eff_entry; [apply (i_wf _ _ I)|apply Hin; cbn; auto].
+    + cbn in Hc. injection Hc as <-. eapply after_eff_entry; [apply (i_wf _ _ I)|apply Hin; cbn; auto].
+  - destruct He as [He|(?&?&?&?)]; [left; auto|right; repeat split; auto; lia].
+Qed.
+
+(** the stop that timed out has issued the kill and cancelled the context *)
+Lemma stop_failed_effect c s i w dl : reachable c s -> nth_error (thr s) i = Some (TSelect w dl) ->
+  kills s = 1 /\ ctxDone s = true /\ hasCtx s = true /\ status s = Stopped.
+Proof.
+  intros R Hp. destruct (reachable_inv _ _ R) as (n & I & _). pose proof (i_kills _ _ I).
+  pose proof (i_facts _ _ I _ _ Hp) as ((cl & Hc & Hin) & _ & _ & Hk & Hd & Hh).
+  repeat split; auto; try lia. rewrite (i_status _ _ I). cbn in Hc. injection Hc as <-.
+  eapply after_eff_entry; [apply (i_wf _ _ I)|apply Hin; cbn; auto].
+Qed.
+
+(** ---- skipping the kill: only inside the window of the Start that got through *)
+
+Lemma hasCtx_stable c evs s : hasCtx s = true -> hasCtx (run c evs s) = true /\ skipped (run c evs s) = skipped s.
+Proof.
+  revert s. induction evs as [|e evs IH]; intros s Hh; cbn; auto.
+  unfold step_or_stay. destruct (step c e s) as [s'|] eqn:Hst; [|apply IH; auto].
+  assert (hasCtx s' = true /\ skipped s' = skipped s) as [A B].
+  { inv_step Hst; split; cbn; congruence. }
+  destruct (IH s' A) as [C D]. split; [exact C|rewrite <- B; exact D].
+Qed.
+
+Lemma start_returned_hasCtx c s i : reachable c s -> nth_error (thr s) i = Some (Done KStart RNil) -> hasCtx s = true.
+Proof.
+  intros R Hp. destruct (reachable_inv _ _ R) as (n & I & _).
+  pose proof (i_facts _ _ I _ _ Hp) as (_ & _ & Hx & _). apply Hx. reflexivity.
+Qed.
+
+(** the Start that got through is between its Unlock and the assignment of system.Context, or is in / has
+    left its failure path (NewContext failed: there never is a root to kill) *)
+Definition in_window (p : pc) : bool :=
+  match p with
+  | SUnlock RNil | SSpawnRoot => true
+  | TLock ByStart _ | TCheck ByStart _ | TUnlock ByStart _ _ | TReadCluster ByStart _ | TLeaveReq ByStart _ | TLeaveWait ByStart _
+  | TReadCtx ByStart _ | TKill ByStart _ | TCancel ByStart _ | TSelect ByStart _ | TSchedStop ByStart | Done KStart (RStartFailed _) => true
+  | _ => false
+  end.
+
+Lemma window_step c e s s' :
+  (status s <> Ready -> hasCtx s = false -> exists i p, nth_error (thr s) i = Some p /\ in_window p = true) ->
+  step c e s = Some s' ->
+  (status s' <> Ready -> hasCtx s' = false -> exists i p, nth_error (thr s') i = Some p /\ in_window p = true).
+Proof.
+  intros W H.
+  inv_step H; try exact W; cbn [status hasCtx goto set_thr set_lock set_check set_hasCtx set_clusterCtx set_ctxDone
+             set_kill set_guardClosed set_leaveReq set_leaveDone set_schedStopped set_now set_skipped set_spawned thr].
+  all: try (intros; discriminate).
+  all: try (intros A; congruence).
+  all: try (intros A B;
+            destruct W as (j & q & Hq & Hw); [first [exact A | discriminate | congruence] | first [exact B | reflexivity] |];
+            destruct (Nat.eq_dec j i) as [->|Hn];
+            [rewrite Hp in Hq; injection Hq as <-; try discriminate Hw;
+             try match goal with w : who |- _ => destruct w; try discriminate Hw end;
+             try (exists i; eexists; split; [apply nth_error_upd_eq; eapply nth_error_lt; eauto|reflexivity])
+            |exists j, q; split; auto; rewrite ?upd_app by (eapply nth_error_lt; eauto);
+             try (rewrite nth_error_app1 by (rewrite length_upd; eapply nth_error_lt; eauto)); rewrite nth_error_upd_neq; auto]).
+  all: try (intros A B; exists i; eexists; split; [apply nth_error_upd_eq; eapply nth_error_lt; eauto|reflexivity]).
+Qed.
+
+Lemma skip_window c s : reachable c s -> status s <> Ready -> hasCtx s = false ->
+  exists i p, nth_error (thr s) i = Some p /\ in_window p = true.
+Proof.
+  intros (ths & evs & He & <-). remember (init ths) as s0.
+  assert (W0 : status s0 <> Ready -> hasCtx s0 = false -> exists i p, nth_error (thr s0) i = Some p /\ in_window p = true).
+  { subst. cbn. congruence. }
+  clear Heqs0 He. revert s0 W0. induction evs as [|e evs IH]; intros s0 W0; cbn; auto.
+  apply IH. unfold step_or_stay. destruct (step c e s0) eqn:Hst; auto. eapply window_step; eauto.
+Qed.
+
+(** ---- cancel = stop; goroutines *)
+
+Lemma eff_exists l : lin_wf l -> status_after l = Stopped -> exists j, In (j, false, Started) l.
+Proof.
+  induction l as [|[[a b] c0] l IH]; cbn; [discriminate|]. intros [Hs Hw] H.
+  destruct (status_after l) eqn:E.
+  - destruct b; discriminate.
+  - destruct b; [discriminate|]. subst. exists a. auto.
+  - destruct (IH Hw eq_refl) as (j & Hj). eauto.
+Qed.
+
+Lemma guard_done_kind p : guard_pc p = true -> is_done p = true -> exists r, p = Done KGuard r.
+Proof. intros Hg Hd. destruct p; try discriminate Hd. destruct k; try discriminate Hg. eauto. Qed.
+
+Lemma all_done c s : reachable c s -> quiescent c s -> ctxDone s = true -> (leaveReq s = true -> leaveDone s = true) ->
+  forall i p, nth_error (thr s) i = Some p -> is_done p = true.
+Proof.
+  intros R Q Hc Hl i p Hp. destruct (quiescent_final _ _ R Q _ _ Hp) as [H|[[_ H]|(w & d & _ & H & H2)]]; auto; [congruence|specialize (Hl H2); congruence].
+Qed.
+
+Lemma cancel_stops c s g p : reachable c s -> quiescent c s -> ctxDone s = true -> (leaveReq s = true -> leaveDone s = true) ->
+  nth_error (thr s) g = Some p -> guard_pc p = true ->
+  status s = Stopped /\ (exists j, In (j, false, Started) (lin s)) /\ exists r, p = Done KGuard r /\ r <> RNotStarted.
+Proof.
+  intros R Q Hc Hl Hp Hg. pose proof (all_done _ _ R Q Hc Hl _ _ Hp) as Hd.
+  destruct (guard_done_kind _ Hg Hd) as (r & ->). destruct (reachable_inv _ _ R) as (n & I & _).
+  pose proof (i_facts _ _ I _ _ Hp) as ((cl & Hcl & Hin) & _ & _ & Hr & _). specialize (Hr eq_refl).
+  assert (St : status s = Stopped).
+  { rewrite (i_status _ _ I). destruct r; cbn in Hcl; try discriminate; try congruence; injection Hcl as <-;
+      (eapply after_stop_entry; [apply (i_wf _ _ I)|apply Hin; cbn; left; reflexivity|discriminate]). }
+  split; auto. split; [|eauto]. apply eff_exists; [apply (i_wf _ _ I)|]. rewrite <- (i_status _ _ I). auto.
+Qed.
+
+Lemma created c ths evs : forallb env_pc ths = true ->
+  let s := run c evs (init ths) in
+  length (thr s) = (length ths + N.to_nat (spawned s))%nat /\ spawned s <= 1 /\
+  forall j p, nth_error (thr s) j = Some p -> (length ths <= j)%nat -> guard_pc p = true.
+Proof.
+  intros He s. destruct (run_inv (length ths) c evs (init ths) (inv_init ths He)) as [I _]. fold s in I.
+  split; [apply (i_len _ _ I)|]. split; [apply (i_spawned _ _ I)|apply (i_created _ _ I)].
+Qed.
+
+(** ---- the Start/Stop race: Stop lands between Start's status switch and the assignment of system.Context *)
+
+Definition race_cfg : cfg := {| cfg_cluster := false; cfg_timeout := 5 |}.
+Definition race_ths : list pc := [SLock; TLock ByStop None].
+Definition race_evs : list ev :=
+  [EStep 0 0; EStep 0 0; EStep 0 0; EStep 0 0;
+   EStep 1 0; EStep 1 0; EStep 1 0; EStep 1 0; EStep 1 0; EStep 1 0; EStep 1 0;
+   EStep 0 0; EStep 0 0; EStep 0 0; EStep 2 0]%nat.
+Definition race_state : st := run race_cfg race_evs (init race_ths).
+
+Lemma race_facts :
+  thr race_state = [Done KStart RNil; Done KStop RNil; GWait] /\
+  status race_state = Stopped /\ hasCtx race_state = true /\ kills race_state = 0 /\ ctxDone race_state = false /\
+  guardClosed race_state = false /\ leaveReq race_state = false /\ skipped race_state = true.
+Proof. vm_compute. repeat split. Qed.
+
+Lemma race_stuck evs :
+  let s := run race_cfg evs race_state in
+  thr s = [Done KStart RNil; Done KStop RNil; GWait] /\ status s = Stopped /\ kills s = 0 /\ ctxDone s = false /\ leaveReq s = false.
+Proof.
+  assert (P : forall s, thr s = [Done KStart RNil; Done KStop RNil; GWait] /\ status s = Stopped /\ kills s = 0 /\ ctxDone s = false /\ leaveReq s = false ->
+              forall e, let s' := step_or_stay race_cfg s e in
+              thr s' = [Done KStart RNil; Done KStop RNil; GWait] /\ status s' = Stopped /\ kills s' = 0 /\ ctxDone s' = false /\ leaveReq s' = false).
+  { intros s (A & B & C & D & E) e. unfold step_or_stay. destruct e as [i alt| | |dt]; cbn [step].
+    - rewrite A. destruct i as [|[|[|i]]]; cbn; rewrite ?D; cbn; auto. destruct i; cbn; auto.
+    - rewrite C. cbn. auto.
+    - rewrite E. cbn. auto.
+    - cbn. auto. }
+  intros s. subst s. revert evs. 
+  assert (G : forall evs s0, thr s0 = [Done KStart RNil; Done KStop RNil; GWait] /\ status s0 = Stopped /\ kills s0 = 0 /\ ctxDone s0 = false /\ leaveReq s0 = false ->
+          let s := run race_cfg evs s0 in thr s = [Done KStart RNil; Done KStop RNil; GWait] /\ status s = Stopped /\ kills s = 0 /\ ctxDone s = false /\ leaveReq s = false).
+  { induction evs as [|e evs IH]; intros s0 H0; cbn; auto. apply IH. apply P. auto. }
+  intros evs. apply G. destruct race_facts as (A & B & C & D & E & F & H & _). auto.
+Qed.
+
+Lemma race_reachable : reachable race_cfg race_state.
+Proof. exists race_ths, race_evs. split; [vm_compute; reflexivity|unfold race_state; reflexivity]. Qed.
+
+Lemma termination c ths evs : forallb env_pc ths = true -> (thread_steps c evs (init ths) <= 20 * length ths)%nat.
+Proof. intros He. etransitivity; [apply steps_bounded|apply total_rank_init; auto]. Qed.
+
+Lemma reachable_run c ths evs : forallb env_pc ths = true -> reachable c (run c evs (init ths)).
+Proof. intros He. exists ths, evs. auto. Qed.
+
+Lemma reachable_continue c s evs : reachable c s -> reachable c (run c evs s).
+Proof.
+  intros (ths & evs0 & He & <-). exists ths, (evs0 ++ evs). split; auto. unfold run. rewrite fold_left_app. reflexivity.
+Qed.
+
+Lemma no_skip_after_start_returned c s i evs : reachable c s -> nth_error (thr s) i = Some (Done KStart RNil) ->
+  skipped (run c evs s) = skipped s.
+Proof. intros R Hp. apply hasCtx_stable. eapply start_returned_hasCtx; eauto. Qed.
+
+Lemma race_witness :
+  exists c s,
+    reachable c s /\
+    thr s = [Done KStart RNil; Done KStop RNil; GWait] /\ hasCtx s = true /\ skipped s = true /\
+    forall evs', let s' := run c evs' s in
+      thr s' = [Done KStart RNil; Done KStop RNil; GWait] /\ status s' = Stopped /\ kills s' = 0 /\ ctxDone s' = false /\ leaveReq s' = false.
+Proof.
+  exists race_cfg, race_state. split; [exact race_reachable|].
+  destruct race_facts as (A & B & C & D & E & F & G & H).
+  split; [exact A|]. split; [exact C|]. split; [exact H|]. exact race_stuck.
 Qed.
